@@ -1,4 +1,5 @@
 CFG = {
+    "level_note": "partial: handle machine, callback adapters, extraction and info logic modelled and proved; raw-pointer validity, Box ownership and CStr conversion are outside any executable model and only exercised through dlopen in child processes; trusted: Coq kernel + vm_compute, tools/src2v.py, the Rust harness (capi.rs, capiread.rs) and its oracles",
     "jobs": lambda tier: [
         J("prod", "witness --only C20", needs_repo_bins=["mla-bindings-c"]),
         J("prod", "c20", needs_repo_bins=["mla-bindings-c"], imports="Base Stream Inst Run RunC20", shard=30),
